@@ -269,7 +269,8 @@ class TimeStamp(TdmsType):
         self.value = value
         epoch_delta = value - self._tdms_epoch
 
-        seconds = int(epoch_delta / np.timedelta64(1, 's'))
+        # Integer division: a float quotient is not exact for nanosecond resolution values
+        seconds = int(epoch_delta // np.timedelta64(1, 's'))
         remainder = epoch_delta - np.timedelta64(seconds, 's')
         zero_delta = np.timedelta64(0, 's')
         if remainder < zero_delta:
